@@ -374,9 +374,23 @@ def check_C07(c):
     for ev in c.by["spawn"]:
         spawned[ev[2]].add(ev[5]["x"])
     for i, pr in c.final["procs"].items():
-        if pr["kind"] != "sched" or pr["pid"] in c.crashed or pr["hung"]:
+        if pr["kind"] != "sched" or pr["pid"] in c.crashed:
             continue
         pid = pr["pid"]
+        if pr["hung"]:
+            # quiescence (nothing can run any more) with a job that is not final although one of
+            # its ancestors ended in error in this scheduler: it will never "end in error"
+            resub_h = {ev[5]["x"] for ev in c.by["submit-return"] if ev[2] == pid and ev[5].get("dup")}
+            jobs = pr.get("jobs", {})
+            for xs, j in sorted(jobs.items()):
+                x = int(xs)
+                if j["state"] in FINAL or x in resub_h or (c.ancestors(x) & resub_h):
+                    continue
+                failed = sorted(u for u in c.ancestors(x) if jobs.get(str(u), {}).get("state") == "ERROR")
+                if failed:
+                    out.append(V("C07", "dependent-of-failed-never-cancelled", {"state": j["state"]},
+                                 "x=%d of pid %d is %s at quiescence although its ancestors %s ended in error" % (x, pid, j["state"], failed)))
+            continue
         if _raised_in_block_pid(c, pid) or _stopped(c, pid):
             continue
         exp = expected_outcomes(c, pid)
